@@ -31,6 +31,9 @@ import (
 type crashPayload struct {
 	Seed uint64 `json:"seed"`
 	Cfg  cfg    `json:"cfg"`
+	// FailAt > 0: the child's program I/O call number FailAt returns an error once (fault-crash family); the process
+	// dies later, at event KillAt of the plan
+	FailAt int `json:"fail_at,omitempty"`
 }
 
 func blockFileName(dbdir string, n uint32) string {
@@ -53,8 +56,17 @@ func runCrashChild(plan *crashkit.Plan) {
 	switch plan.Role {
 	case "workload":
 		e := newEngine(nullReporter{}, mon.NewRand(int64(pl.Seed), "c05-program", 0), pl.Cfg, dbdir)
+		nev := 0
 		e.hook = func(ev ffldb.VerifEvent) error {
-			return rec.Event(crashkit.Event{Kind: ev.Kind, FileNum: ev.FileNum, Off: ev.Off, N: ev.N})
+			nev++
+			if err := rec.Event(crashkit.Event{Kind: ev.Kind, FileNum: ev.FileNum, Off: ev.Off, N: ev.N}); err != nil {
+				return err
+			}
+			if pl.FailAt > 0 && nev == pl.FailAt {
+				e.faults++
+				return errInjected
+			}
+			return nil
 		}
 		e.note = func(s string) { rec.Op("%s", s) }
 		e.run()
@@ -486,4 +498,180 @@ func verifyRecovered(k *mon.Case, rep caseReporter, ref *faultRun, states []*ref
 	closeDB = false
 	e2.resume(db)
 	*curOps = func() []string { return ref.e.oplog }
+}
+
+// famFaultCrash: an I/O call fails once (the program sees whatever ffldb reports and carries on), and some events later
+// the process dies. The reference for the prefix oracle is an in-process run of the same program with the same failed
+// call and no death: it supplies the event sequence the child has to follow and the committed states.
+func famFaultCrash(c *mon.Ctx) {
+	c.Family("fault-crash", nCases(c, 12, 20), func(k *mon.Case) {
+		ps := k.Rand.Uint64()
+		cf := crashCfg(k.Rand)
+		if k.Rand.Chance(3, 4) {
+			cf.Prune, cf.PruneW = true, 10
+		}
+		k.Desc(map[string]any{"program_seed": ps, "cfg": cf})
+		base := caseDir(k)
+		base = base[:len(base)-3]
+		defer removeAll(base)
+		var curOps func() []string
+		var curPoint any
+		rep := caseReporter{k: k, ctx: func() any {
+			m := map[string]any{"program_seed": ps, "cfg": cf, "fault_and_crash_point": curPoint}
+			if curOps != nil {
+				m["ops"] = curOps()
+			}
+			return m
+		}}
+		plain := newFaultRun(rep, ps, cf, base+"/plain/db", 0, false)
+		curOps = func() []string { return plain.e.oplog }
+		plain.e.run()
+		if plain.e.failed {
+			k.Count("faultcrash.reference-run-failed", 1)
+			return
+		}
+		k.Count("faultcrash.programs", 1)
+		// calls to fail: syncs, leveldb commits, file deletions and a few writes
+		byKind := map[string][]int{}
+		for i, kd := range plain.kinds {
+			byKind[kd] = append(byKind[kd], i+1)
+		}
+		var js []int
+		quota := map[string]int{"blk-sync": 3, "ldb-commit-pre": 3, "blk-delete": 2, "blk-write": 1}
+		if c.Thorough() {
+			quota = map[string]int{"blk-sync": 10, "ldb-commit-pre": 10, "blk-delete": 6, "blk-write": 4, "blk-trunc": 2, "blk-close": 2}
+		}
+		for _, kd := range []string{"blk-sync", "ldb-commit-pre", "blk-delete", "blk-write", "blk-trunc", "blk-close"} {
+			idx := byKind[kd]
+			q := quota[kd]
+			for _, pi := range k.Rand.Perm(len(idx)) {
+				if q == 0 {
+					break
+				}
+				js = append(js, idx[pi])
+				q--
+			}
+		}
+		// and the flush that precedes the deletion of pruned block files (the sync of the block files and the leveldb
+		// commit of the same database commit): deleting must not go ahead when that flush did not succeed
+		dels := byKind["blk-delete"]
+		for _, pi := range k.Rand.Perm(len(dels)) {
+			if pi >= 4 && !c.Thorough() {
+				continue
+			}
+			d := dels[pi]
+			seenSync, seenLdb := false, false
+			for i := d - 1; i >= 1 && i >= d-16; i-- {
+				switch kd := plain.kinds[i-1]; {
+				case kd == "blk-delete":
+				case kd == "blk-sync" && !seenSync:
+					seenSync = true
+					js = append(js, i)
+				case kd == "ldb-commit-pre" && !seenLdb:
+					seenLdb = true
+					js = append(js, i)
+				}
+			}
+		}
+		sort.Ints(js)
+		js = dedupInts(js)
+		for _, j := range js {
+			// the faulted timeline without a crash
+			var evs []ffldb.VerifEvent
+			fr := newFaultRun(rep, ps, cf, fmt.Sprintf("%s/f%d/db", base, j), j, false)
+			inner := fr.e.hook
+			fr.e.hook = func(ev ffldb.VerifEvent) error {
+				evs = append(evs, ev)
+				return inner(ev)
+			}
+			curOps = func() []string { return fr.e.oplog }
+			curPoint = map[string]any{"failed_call": j, "kind": plain.kinds[j-1]}
+			fr.e.run()
+			_ = os.RemoveAll(fmt.Sprintf("%s/f%d", base, j))
+			if fr.fired == "" || fr.e.failed || len(evs) <= j {
+				k.Count("faultcrash.fault-timeline-unusable", 1)
+				continue
+			}
+			states := fr.e.states
+			payload, _ := json.Marshal(crashPayload{Seed: ps, Cfg: cf, FailAt: j})
+			kills := []int{j + 1 + k.Rand.Intn(min(12, len(evs)-j)), j + 1 + k.Rand.Intn(len(evs)-j)}
+			for ki, kp := range kills {
+				if ki == 1 && kp == kills[0] {
+					continue
+				}
+				mode := crashkit.ModeDeath
+				if k.Rand.Chance(1, 2) {
+					mode = crashkit.ModePowerLoss
+				}
+				curPoint = map[string]any{"failed_call": j, "failed_kind": fr.fired, "death_at_event": kp, "kind": evs[kp-1].Kind, "mode": mode}
+				dir := fmt.Sprintf("%s/f%d-c%d-%s", base, j, kp, mode)
+				out, err := crashkit.Spawn(crashkit.Plan{Dir: dir, KillAt: kp, Mode: mode, Role: "workload", Payload: payload}, 120*time.Second)
+				k.Count("faultcrash.spawned", 1)
+				if err != nil || out.TimedOut || !out.Killed {
+					k.Count("faultcrash.inconclusive.spawn", 1)
+					if err == nil && !out.TimedOut && out.ExitCode != 0 {
+						k.Failf("crash:child-exited-abnormally", "fault-crash child (failed call %d, death at %d) exited with code %d:\n%s", j, kp, out.ExitCode, out.Output)
+					}
+					_ = os.RemoveAll(dir)
+					continue
+				}
+				lines, err := crashkit.ReadLog(dir)
+				if err != nil || !crashkit.DiedAt(lines, kp) {
+					k.Count("faultcrash.inconclusive.bad-log", 1)
+					_ = os.RemoveAll(dir)
+					continue
+				}
+				same, n := true, 0
+				for _, l := range lines {
+					if l.Type != 'E' {
+						continue
+					}
+					if n >= len(evs) {
+						same = false
+						break
+					}
+					r := evs[n]
+					bothClose := l.Event.Kind == "blk-close" && r.Kind == "blk-close"
+					if !bothClose && (l.Event.Kind != r.Kind || l.Event.FileNum != r.FileNum || l.Event.Off != r.Off || l.Event.N != r.N) {
+						same = false
+						break
+					}
+					n++
+				}
+				if !same || n != kp {
+					k.Count("faultcrash.inconclusive.child-diverged-from-reference", 1)
+					_ = os.RemoveAll(dir)
+					continue
+				}
+				pmin, pmax, acked, _ := crashWindow(lines)
+				if pmax >= len(states) {
+					pmax = len(states) - 1
+				}
+				if pmin > pmax {
+					pmin = pmax
+				}
+				tag := "fault@" + fr.fired + "+crash:" + mode + "@" + evs[kp-1].Kind + ":"
+				ctxDetail := fmt.Sprintf("program seed %d, I/O call %d (%s) failed once, then crash model %s at I/O event %d (%s), %d commits acknowledged, acceptable prefixes [%d,%d]; events before the crash: %s",
+					ps, j, fr.fired, mode, kp, evString(evs[kp-1]), acked, pmin, pmax, tailEvents(lines, 40))
+				verifyRecovered(k, rep, fr, states, filepath.Join(dir, "db"), lines, tag, ctxDetail, pmin, pmax, cf, &curOps, false)
+				k.Count("faultcrash.points", 1)
+				k.Count("faultcrash.failed."+fr.fired, 1)
+				k.Eval(mon.Sig("fault-crash", fr.fired, evs[kp-1].Kind, mode, pmin, pmax), true)
+				_ = os.RemoveAll(dir)
+			}
+		}
+	})
+	c.Require("faultcrash.points", 30)
+	c.Require("faultcrash.failed.blk-sync", 5)
+	c.Require("faultcrash.failed.ldb-commit-pre", 5)
+}
+
+func dedupInts(a []int) []int {
+	out := a[:0]
+	for i, v := range a {
+		if i == 0 || v != a[i-1] {
+			out = append(out, v)
+		}
+	}
+	return out
 }
